@@ -170,6 +170,11 @@ pub struct PCase<'a> {
 
 /// Run one procfs API call on `handle` with recording and write the case.
 pub fn run_pcase(ctx: &mut Ctx, handle: &ProcfsHandle, c: &PCase<'_>) {
+    run_pcase_f(ctx, handle, c, None);
+}
+
+/// ... optionally with the `k`-th system call failing with `errno`; returns the kinds of the calls made.
+pub fn run_pcase_f(ctx: &mut Ctx, handle: &ProcfsHandle, c: &PCase<'_>, fault: Option<(usize, i32)>) -> Vec<&'static str> {
     let (hfd, hmnt, hsub, hemu) = verif::procfs_describe(handle);
     let (pfd, pmnt, psub, pemu) = verif::procfs_describe(verif::global_procfs());
     let mut s = String::new();
@@ -200,8 +205,14 @@ pub fn run_pcase(ctx: &mut Ctx, handle: &ProcfsHandle, c: &PCase<'_>) {
     ));
     let path = ops::p(&c.subpath);
     let flags = OpenFlags::from_bits_retain(c.flags);
+    if let Some((k, e)) = fault {
+        s.push_str(&format!("fault single at={k} errno={e}\n"));
+    }
+    let ip: Option<Box<dyn pathrs::verif::Interposer>> = fault.map(|(k, e)| {
+        Box::new(crate::attack::Faulter(crate::attack::Fault::Single(k, e), 0)) as Box<dyn pathrs::verif::Interposer>
+    });
     let before = ops::fd_table();
-    let (r, log) = ops::recorded(None, || match c.api {
+    let (r, log) = ops::recorded(ip, || match c.api {
         Api::Open => handle.open(c.base, path, flags).map(|f| ops::Outcome::Fd(f.into())),
         Api::OpenFollow => handle
             .open_follow(c.base, path, flags)
@@ -231,6 +242,7 @@ pub fn run_pcase(ctx: &mut Ctx, handle: &ProcfsHandle, c: &PCase<'_>) {
     s.push_str(&ops::fd_table_diff(&before, &after, ex));
     s.push_str("\nend\n");
     ctx.out.write_all(s.as_bytes()).unwrap();
+    log.iter().map(|(c, _)| c.kind).collect()
 }
 
 fn listing(dir: &str) -> Vec<Vec<u8>> {
@@ -554,7 +566,7 @@ pub fn overmount_candidates() -> Vec<(ProcfsBase, &'static str, &'static str, Ov
 
 /// C06: in a private mount namespace, place the over-mounts selected by `mask`
 /// and look every candidate up through every handle kind / resolver / API.
-pub fn suite_overmount(ctx: &mut Ctx, masks: &[u32]) {
+pub fn suite_overmount(ctx: &mut Ctx, masks: &[u32], faults: bool) {
     if !enter_mntns() {
         let _ = ctx.out.write_all(b"case om-skip\nmeta suite=proc_overmount skipped=unshare\nop skip\nres err skip\nend\n");
         return;
@@ -624,26 +636,36 @@ pub fn suite_overmount(ctx: &mut Ctx, masks: &[u32]) {
                         (Api::Readlink, libc::O_PATH),
                     ] {
                         id += 1;
-                        run_pcase(
-                            ctx,
-                            handle,
-                            &PCase {
-                                id: format!("o{id}"),
-                                suite: "proc_overmount",
-                                kind,
-                                emulated,
-                                api,
-                                base: *base,
-                                subpath: sub.as_bytes().to_vec(),
-                                flags,
-                                meta: format!(
-                                    "mask={mask} dst={dst} over={} visible={} layout={}",
-                                    over.map(|(d, n)| format!("{d}:{n}")).unwrap_or_else(|| "none".into()),
-                                    kind.sees_host_mounts() as u8,
-                                    if layout.is_empty() { "none" } else { &layout }
-                                ),
-                            },
-                        );
+                        let mk = |idstr: String| PCase {
+                            id: idstr,
+                            suite: "proc_overmount",
+                            kind,
+                            emulated,
+                            api,
+                            base: *base,
+                            subpath: sub.as_bytes().to_vec(),
+                            flags,
+                            meta: format!(
+                                "mask={mask} dst={dst} over={} visible={} layout={}",
+                                over.map(|(d, n)| format!("{d}:{n}")).unwrap_or_else(|| "none".into()),
+                                kind.sees_host_mounts() as u8,
+                                if layout.is_empty() { "none" } else { &layout }
+                            ),
+                        };
+                        let kinds = run_pcase_f(ctx, handle, &mk(format!("o{id}")), None);
+                        // the verification must fail closed: with an over-mount in the way, make each mount-id /
+                        // fs-type probe of the call fail with the errnos that mean "cannot tell" (and one that
+                        // does not) and demand that the over-mounted object is still never returned
+                        if faults && over.is_some() && kind.sees_host_mounts() {
+                            for (k, ck) in kinds.iter().enumerate() {
+                                if *ck == "statx" || *ck == "fstatfs" {
+                                    for e in [libc::ENOSYS, libc::EINVAL, libc::EACCES] {
+                                        id += 1;
+                                        run_pcase_f(ctx, handle, &mk(format!("o{id}")), Some((k, e)));
+                                    }
+                                }
+                            }
+                        }
                     }
                 }
             }
